@@ -39,12 +39,13 @@ scratch", invariance under hiding and the uniqueness statement above all speak a
 theorem driver_roots_are_abstract_roots (jc : String → Nat) (p : Prog.Plan) (hw : Prog.WellIdx p)
     (cs : Array Nat) (h : Prog.cmrs (fun n => some (jc n)) p = some cs) :
     cs.size = p.size ∧ ∀ i, i < p.size → cs.getD i 0 =
-      Cmr.cmr (Prog.shaParams jc) (Prog.commitOf jc p (i + 1) i) :=
+      Cmr.cmr (Prog.shaParams jc) (Prog.shaCommitOf jc p (i + 1) i) :=
   Prog.cmrs_eq jc p hw cs h
 
 /-- the committed structure of a node does not mention the branch of a disconnect -/
-example (jc : String → Nat) (a : Nat) (b : Option Nat) :
-    Prog.commitOf jc #[.iden, .disconnect a b] 2 1 = Prog.commitOf jc #[.iden, .disconnect a none] 2 1 := rfl
+example (jc : String → Nat) (b : Option Nat) :
+    Prog.shaCommitOf jc #[.iden, .disconnect 0 b] 2 1 = Prog.shaCommitOf jc #[.iden, .disconnect 0 none] 2 1 := by
+  simp [Prog.shaCommitOf, Prog.commitOf]
 
 /-- **Tie to the source:** every `Cmr::*_IV` constant of `src/merkle/cmr.rs` is the tagged-hash
 midstate of its documented tag string (so "hashing the tagged combinator tree from scratch", which
